@@ -130,6 +130,71 @@ def onceOk (inp : Input) (obs : Obs) : Bool :=
   | [] => false
   | c :: calls => onceCreateOk inp.sh inp.w c && calls.all onceCallOk
 
+/-- C18_percall: every call of a form that must configure per product has the per-call structure of `freshCallOk`
+— also when the default-config function hands out one shared pointer (then the identities coincide, which is the
+plugin author's doing; the registry still calls the default-config function, fillConf and the constructor once per
+product, on the configuration that function returned) -/
+def percallApplies (inp : Input) : Bool :=
+  inp.sh.cfg != .none && (inp.form == .component || !inp.sh.factory)
+
+def percallOk (inp : Input) (obs : Obs) : Bool :=
+  (inp.form == .component || (obs.steps.head?.map (·.evs)) == some []) &&
+  (callsOf inp obs).all (freshCallOk inp.sh inp.w)
+
+/-! ### C18_struct: which user code runs in which operation, in which order — for EVERY shape -/
+
+/-- kind of an invocation of user code -/
+inductive K | d | f | c | r
+deriving DecidableEq, Repr
+
+def kindOf : Ev → K
+  | .dflt => .d | .fill .. => .f | .ctor .. => .c | .fact .. => .r
+
+/-- `defaultConfigContainer.Get`: the default-config function (if one is registered and a config is needed), then
+fillConf (if given) -/
+def getKinds (sh : Shape) (w : World) : List K :=
+  (if sh.cfg = .none ∨ sh.dflt = .absent then [] else [K.d]) ++ (if w.hasFill then [K.f] else [])
+
+/-- does one call of the requested form configure anew?  `New` always does (on an empty struct when the constructor
+takes no config); a factory made from a component constructor does iff the constructor takes a config -/
+def reconfigures (inp : Input) : Bool :=
+  inp.form == .component || (!inp.sh.factory && inp.sh.cfg != .none)
+
+/-- the invocations of user code one call consists of, in order (`ff`: did fillConf fail in this step) -/
+def callKindsBy (ff : Step → Bool) (inp : Input) (s : Step) : List K :=
+  if reconfigures inp then
+    getKinds inp.sh inp.w ++
+      (if ff s then [] else K.c :: (if inp.sh.factory && !ctorFailed s then [K.r] else []))
+  else if inp.sh.factory then [K.r] else [K.c]
+
+/-- the invocations of user code `NewFactory` itself consists of -/
+def createKindsBy (ff : Step → Bool) (inp : Input) (s : Step) : List K :=
+  if inp.sh.factory then getKinds inp.sh inp.w ++ (if ff s then [] else [K.c])
+  else if inp.sh.cfg = .none && inp.w.hasFill then [K.f] else []
+
+def callKinds := callKindsBy fillFailed
+def createKinds := createKindsBy fillFailed
+
+/-- a constructor without a config never sees one: fillConf works on the empty struct, the constructor gets nothing -/
+def noAddr (s : Step) : Bool := s.evs.all fun e => (fillAddrEv e).isNone && (ctorConfEv e).isNone
+
+def structOkBy (ff : Step → Bool) (inp : Input) (obs : Obs) : Bool :=
+  (inp.form == .component ||
+    match obs.steps.head? with
+    | some c => c.evs.map kindOf == createKindsBy ff inp c
+    | none => false) &&
+  ((callsOf inp obs).all fun s => s.evs.map kindOf == callKindsBy ff inp s) &&
+  (inp.sh.cfg != .none || obs.steps.all noAddr)
+
+/-- C18_struct on an observation -/
+def structOk := structOkBy fillFailed
+
+/-- the step ended with fillConf's error (how a failed fillConf shows where fillConf invocations are not logged) -/
+def resFill (s : Step) : Bool :=
+  match s.res with
+  | .err (.fill _) | .panic (.fill _) => true
+  | _ => false
+
 /-- verdict of the whole Spec on an observation (`none` = registration panicked) -/
 def judge (inp : Input) (obs : Option Obs) (fields : List Nat) : String :=
   match obs with
@@ -140,6 +205,8 @@ def judge (inp : Input) (obs : Option Obs) (fields : List Nat) : String :=
     else if !configOk inp obs fields then "fail:config:product config is not defaults overlaid by user settings"
     else if freshApplies inp && !freshOk inp obs then "fail:fresh:config not created+filled per product or shared between products"
     else if onceApplies inp && !onceOk inp obs then "fail:once:factory constructor not configured exactly once"
+    else if percallApplies inp && !percallOk inp obs then "fail:fresh:a product not built by its own default-config + fillConf + constructor call"
+    else if !structOk inp obs then "fail:counts:user code invoked in another number or order than the constructor shape prescribes"
     else "ok"
 
 end Pandora.Spec.C18
